@@ -22,6 +22,7 @@ CONSTANTS LastYear,     \* the walk stops at 31 December of this year
           Mut           \* mutations of the algorithm model, {} = the code
 
 Leap(y) == (y % 4 = 0 /\ y % 100 # 0) \/ y % 400 = 0
+YearLen(y) == IF Leap(y) THEN 366 ELSE 365
 DaysIn(m, y) == IF m = 2 THEN (IF Leap(y) THEN 29 ELSE 28)
                 ELSE IF m \in {4, 6, 9, 11} THEN 30 ELSE 31
 
@@ -74,15 +75,16 @@ CivilFromDays(n) ==
 --------------------------------------------------------------------------------
 VARIABLES day, wd, d, m, y,     \* the current day
           ms, mw,               \* day number and weekday of the 1st of the current month, by month jumps
+          ys, yw,               \* day number and weekday of 1 January of the current year, by year jumps
           dps,                  \* DayPart strings of days 1..d of the current month ("day" mode)
           hh, mi, ss, sod, tps  \* the clock: time of day, second of day, TimePart strings of this minute
-cal == <<day, wd, d, m, y, ms, mw, dps>>
+cal == <<day, wd, d, m, y, ms, mw, ys, yw, dps>>
 clk == <<hh, mi, ss, sod, tps>>
 vars == <<cal, clk>>
 
 ClockZero == hh = 0 /\ mi = 0 /\ ss = 0 /\ sod = 0 /\ tps = <<TimePart(0, 0, 0)>>
 Init == /\ day = 0 /\ wd = 4 /\ d = 1 /\ m = 1 /\ y = 1970        \* Thursday, 1 January 1970
-        /\ ms = 0 /\ mw = 4 /\ dps = <<DayPart(4, 1)>>
+        /\ ms = 0 /\ mw = 4 /\ ys = 0 /\ yw = 4 /\ dps = <<DayPart(4, 1)>>
         /\ ClockZero
 
 AtEnd == y = LastYear /\ m = 12 /\ (Mode = "month" \/ d = 31)
@@ -91,17 +93,18 @@ Day_Within ==
   /\ Mode = "day" /\ d < DaysIn(m, y)
   /\ day' = day + 1 /\ wd' = (wd + 1) % 7 /\ d' = d + 1
   /\ dps' = Append(dps, DayPart(wd', d'))
-  /\ UNCHANGED <<m, y, ms, mw, clk>>
+  /\ UNCHANGED <<m, y, ms, mw, ys, yw, clk>>
 Day_MonthEnd ==
   /\ Mode = "day" /\ d = DaysIn(m, y) /\ m < 12
   /\ day' = day + 1 /\ wd' = (wd + 1) % 7 /\ d' = 1 /\ m' = m + 1
   /\ ms' = ms + DaysIn(m, y) /\ mw' = (mw + DaysIn(m, y)) % 7
   /\ dps' = <<DayPart(wd', 1)>>
-  /\ UNCHANGED <<y, clk>>
+  /\ UNCHANGED <<y, ys, yw, clk>>
 Day_YearEnd ==
   /\ Mode = "day" /\ d = 31 /\ m = 12 /\ ~AtEnd
   /\ day' = day + 1 /\ wd' = (wd + 1) % 7 /\ d' = 1 /\ m' = 1 /\ y' = y + 1
   /\ ms' = ms + 31 /\ mw' = (mw + 31) % 7
+  /\ ys' = ys + YearLen(y) /\ yw' = (yw + YearLen(y)) % 7
   /\ dps' = <<DayPart(wd', 1)>>
   /\ UNCHANGED clk
 \* month mode: from the 1st of a month to the 1st of the next
@@ -111,9 +114,19 @@ Month_Jump ==
   /\ day' = ms' /\ wd' = mw' /\ d' = 1
   /\ m' = IF m = 12 THEN 1 ELSE m + 1
   /\ y' = IF m = 12 THEN y + 1 ELSE y
+  /\ ys' = IF m = 12 THEN ys + YearLen(y) ELSE ys
+  /\ yw' = IF m = 12 THEN (yw + YearLen(y)) % 7 ELSE yw
   /\ dps' = <<DayPart(wd', 1)>>
   /\ UNCHANGED clk
-Next == Day_Within \/ Day_MonthEnd \/ Day_YearEnd \/ Month_Jump
+\* from anywhere in a year to its successor's 1 January (used by the trace spec to cross centuries quickly;
+\* YearAgrees ties it to the month jumps, which JumpAgrees ties to the day steps)
+Year_Jump ==
+  /\ Mode = "month" /\ y < LastYear
+  /\ ys' = ys + YearLen(y) /\ yw' = (yw + YearLen(y)) % 7
+  /\ ms' = ys' /\ mw' = yw' /\ day' = ys' /\ wd' = yw' /\ d' = 1 /\ m' = 1 /\ y' = y + 1
+  /\ dps' = <<DayPart(wd', 1)>>
+  /\ UNCHANGED clk
+Next == Day_Within \/ Day_MonthEnd \/ Day_YearEnd \/ Month_Jump \/ Year_Jump
 
 \* the DayPart strings of a whole month from its first weekday (what month mode and the trace spec use)
 MonthDays(w1, mm, yy) == [i \in 1..DaysIn(mm, yy) |-> DayPart((w1 + i - 1) % 7, i)]
@@ -126,6 +139,7 @@ JumpAgrees == /\ day = ms + d - 1 /\ wd = (mw + d - 1) % 7
 \* the days containing 2^24, 2^31, 2^32 .. 2^37 seconds (2^38 lies beyond 9999), the day before / of the algorithm's own
 \* anchor 2000-03-01, the last day of its 400-year cycle (2400-02-29), 2100-02-28 / 03-01, and the last day of 9999
 EverySecondDays == {0, 194, 11016, 11017, 24855, 47540, 47541, 49710, 99420, 157113, 198841, 397682, 795364, 1590728, 2932896}
+YearAgrees == (m = 1 => (ms = ys /\ mw = yw)) /\ ys <= ms /\ ms < ys + YearLen(y)
 AlgoAgrees == CivilFromDays(day) = [y |-> y, m |-> m, d |-> d, wd |-> wd]
 \* well-known fixed points of the calendar
 Anchors == /\ (y = 2000 /\ m = 3 /\ d = 1) => (day = 11017 /\ wd = 3)
@@ -138,7 +152,7 @@ Anchors == /\ (y = 2000 /\ m = 3 /\ d = 1) => (day = 11017 /\ wd = 3)
 
 --------------------------------------------------------------------------------
 (* The clock of one day. *)
-ClockInit == /\ day = 0 /\ wd = 4 /\ d = 1 /\ m = 1 /\ y = 1970 /\ ms = 0 /\ mw = 4 /\ dps = <<>>
+ClockInit == /\ day = 0 /\ wd = 4 /\ d = 1 /\ m = 1 /\ y = 1970 /\ ms = 0 /\ mw = 4 /\ ys = 0 /\ yw = 4 /\ dps = <<>>
              /\ ClockZero
 Tick_Second == /\ ss < 59 /\ ss' = ss + 1 /\ sod' = sod + 1
                /\ tps' = Append(tps, TimePart(hh, mi, ss'))
